@@ -195,7 +195,95 @@ def extra_checks(tier, seed):
         bad.append("instance-type registry %r != %r" % (types, want))
     return [{"name": "C12/registry/event-registries-match-the-tables", "status": "failed" if bad else "discharged",
              "cases": len(live_pb) + len(types), "kind": "exhaustive", "seconds": time.time() - t0,
-             "detail": "; ".join(bad), "witness": {"mismatch": bad}, "replay": {"mismatch": bad}}]
+             "detail": "; ".join(bad), "witness": {"mismatch": bad}, "replay": {"mismatch": bad}},
+            held_events_check(tier, seed)]
+
+
+# ----------------------------------------------------------------------------- bounded stand-in: events held while others decode
+# The proof units decode one frame from a state in which nothing was decoded before.  "Re-decoding an ambiguous event LATER
+# gives the same result as decoding the frame with that map" also says that an event object keeps what it was decoded from
+# while other frames are decoded in between (decoded objects that share a frame object would not).  BOUNDED, native: events
+# are decoded in batches, held, and then observed / re-decoded, and compared with the decode of each frame on its own.
+def _obs(ev):
+    if ev is None:
+        return None
+    f = getattr(ev, "frame", None)
+    out = [type(ev).__name__, None if f is None else (len(f), f.as_integer)]
+    for a in ("short_address", "instance_number", "instance_group", "device_group", "instance_type", "event_data"):
+        try:
+            v = getattr(ev, a, "<absent>")
+            # (address objects have no __repr__: take the class and the number, not the object's identity)
+            out.append((a, (type(v).__name__, getattr(v, "address", getattr(v, "group", None)))
+                        if type(v).__module__ == "dali.address" else repr(v)))
+        except Exception as e:      # noqa: BLE001
+            out.append((a, "raised " + type(e).__name__))
+    try:
+        out.append(("str", str(ev)))
+    except Exception as e:      # noqa: BLE001
+        out.append(("str", "raised " + type(e).__name__))
+    return tuple(out)
+
+
+def held_events_check(tier, seed):
+    import random
+    import time
+    from dali import frame as FR
+    from dali.command import Command
+    from dali.device.helpers import DeviceInstanceTypeMapper
+    t0 = time.time()
+    rng = random.Random(1000 + int(seed or 0))
+    nbatches, batch = (400, 6) if tier != "thorough" else (6000, 8)
+
+    def ev_frame():
+        v = rng.getrandbits(24) & ~(1 << 16)
+        if rng.random() < 0.6:
+            v = (v & ~(1 << 23)) | (1 << 15)        # device / instance scheme: the one that needs the map
+        return v
+
+    def dec(v, m):
+        return Command.from_frame(FR.ForwardFrame(24, v), dev_inst_map=m)
+    bad = []
+    n = 0
+    for _ in range(nbatches):
+        vals = [ev_frame() for _ in range(batch)]
+        m = DeviceInstanceTypeMapper()
+        for v in vals:
+            if rng.random() < 0.7:
+                m.add_type(short_address=(v >> 17) & 0x3F, instance_number=(v >> 10) & 0x1F,
+                           instance_type=rng.choice([1, 3, 4, 20]))
+        held = [dec(v, None) for v in vals]
+        # everything that is read from the held objects is read BEFORE anything else is decoded again
+        held_obs = [_obs(ev) for ev in held]
+        retried = []
+        for ev in held:
+            retry = getattr(ev, "retry_decode", None)
+            if retry is not None and type(ev).__name__ == "AmbiguousInstanceType":
+                try:
+                    retried.append(_obs(retry(m)))
+                except Exception as e:      # noqa: BLE001
+                    retried.append("raised " + type(e).__name__)
+            else:
+                retried.append("<not ambiguous>")
+        for v, ev, seen, again in zip(vals, held, held_obs, retried):
+            n += 1
+            alone = _obs(dec(v, None))
+            if seen != alone:
+                bad.append((v, "an event decoded from 0x%06x and held while %d other frames were decoded now reads %r, "
+                               "decoded on its own it reads %r" % (v, batch - 1, seen, alone)))
+                continue
+            if again != "<not ambiguous>":
+                direct = _obs(dec(v, m))
+                direct = direct if direct is None or direct[0] != "AmbiguousInstanceType" else None
+                if again != direct:
+                    bad.append((v, "retry_decode of the held ambiguous event of 0x%06x gives %r, decoding the frame with the "
+                                   "map gives %r" % (v, again, direct)))
+    name = "C12/bounded/held-events-keep-their-frame-and-retry-decode-like-a-direct-decode"
+    return {"name": name, "status": "failed" if bad else "discharged", "cases": n, "kind": "bounded-native",
+            "seconds": time.time() - t0,
+            "detail": bad[0][1][:600] if bad else "%d batches of %d event frames decoded, held, observed and re-decoded" % (nbatches, batch),
+            "witness": {"frame": bad[0][0]} if bad else {},
+            "replay": {"how": "decode the listed frames without a map in one process, keep the objects, then observe / retry_decode",
+                       "failing": [b[1][:400] for b in bad[:10]], "total_failing": len(bad)}}
 
 
 def provides(keys, units):
@@ -211,7 +299,9 @@ DEPENDENCIES = ['C04', 'C05']
 
 META = {
     "level": "proof",
-    "bounds": {"event frames": "all 2^23 24-bit frames with bit 16 clear (symbolic), with no map, with a map answering any "
+    "bounds": {"held events (BOUNDED stand-in)": "400 batches of 6 random event frames (thorough: 6000 x 8) decoded without a map, "
+               "held, then observed and retry_decode'd against a random map; compared with decoding each frame on its own",
+               "event frames": "all 2^23 24-bit frames with bit 16 clear (symbolic), with no map, with a map answering any "
                "type 0..31 and with a map without entry", "map contents": "one add_type through int / address-object / "
                "module arguments followed by lookups of the same and of an arbitrary other pair (all symbolic)"},
     "assumptions": [
